@@ -130,84 +130,161 @@ def filter_decisions(T, args, o, bams):
     return out
 
 
+def option_values(o, bams, scratch):
+    """the attribute values a caller sets on the options namespace for option dict o (files named by content)"""
+    import hashlib
+    bl = bed = None
+    if o.get('blacklist') is not None:
+        txt = ''.join('%s\t%d\t%d\n' % (c, s, e) for c, s, e in o['blacklist'])
+        bl = os.path.join(scratch, 'bl_%s.bed' % hashlib.sha1(txt.encode()).hexdigest()[:16])
+        with open(bl, 'w') as fh:
+            fh.write(txt)
+    if o.get('bed') is not None:
+        txt = ''.join('%s\t%d\t%d\t%s\n' % (c, s, e, name) for c, s, e, name in o['bed'])
+        bed = os.path.join(scratch, 'rg_%s.bed' % hashlib.sha1(txt.encode()).hexdigest()[:16])
+        with open(bed, 'w') as fh:
+            fh.write(txt)
+    return dict(
+        alignmentfiles=list(bams), head=None, o=None, bin=None, binTag='DS', sliding=None,
+        bedfile=bed, showtags=False, featureTags=o.get('featureTags'),
+        joinedFeatureTags=o.get('joinedFeatureTags'), byValue=o.get('byValue'),
+        sampleTags=o.get('sampleTags', 'SM'), proper_pairs_only=o.get('proper_pairs_only', False),
+        no_indels=o.get('no_indels', False), max_base_edits=o.get('max_base_edits'),
+        no_softclips=o.get('no_softclips', False), minMQ=o.get('minMQ', 0), filterXA=o.get('filterXA', False),
+        dedup=o.get('dedup', False), divideMultimapping=o.get('divideMultimapping', False),
+        doNotDivideFragments=o.get('doNotDivideFragments', False), contig=o.get('contig'), blacklist=bl,
+        r1only=o.get('r1only', False), r2only=o.get('r2only', False), filterMP=o.get('filterMP', False),
+        splitFeatures=o.get('splitFeatures', False), featureDelimiter=o.get('featureDelimiter', ','),
+        noNames=o.get('noNames', False), keepOverBounds=False, bulk=False)
+
+
+def run_table(T, args):
+    """one create_count_table(args, return_df=True) call -> {'cells', 'raw'} | {'error', ['raw']}"""
+    import pandas as pd
+    orig_from_dict = pd.DataFrame.from_dict
+    captured = []
+
+    def spy(data, *a, **k):
+        try:
+            captured.append({s: dict(c) for s, c in data.items()})
+        except Exception:
+            pass
+        return orig_from_dict(data, *a, **k)
+    old = sys.stdout
+    sys.stdout = open(os.devnull, 'w')
+    pd.DataFrame.from_dict = spy
+    try:
+        try:
+            df = T.create_count_table(args, return_df=True)
+        finally:
+            sys.stdout.close()
+            sys.stdout = old
+            pd.DataFrame.from_dict = orig_from_dict
+        return {'cells': cells_of_df(df), 'raw': cells_of_raw(captured[0]) if len(captured) == 1 else None}
+    except KeyboardInterrupt:
+        raise
+    except BaseException as e:
+        r = {'error': '%s: %s' % (type(e).__name__, e)}
+        # an exception after the table was accumulated (DataFrame naming) keeps the captured table
+        if len(captured) == 1:
+            try:
+                r['raw'] = cells_of_raw(captured[0])
+            except Exception:
+                pass
+        return r
+
+
+def direct_table(T, o, bams, scratch, d):
+    """assignReads called directly on every record with a fresh namespace holding exactly the caller's options
+    (no create_count_table in between); d = {'joined', 'ft', 'stags'} as create_count_table would derive them.
+    None when assignReads cannot be called that way."""
+    import pysam, collections, inspect
+    fn = getattr(T, 'assignReads', None)
+    if fn is None:
+        return None
+    try:
+        names = list(inspect.signature(fn).parameters)
+    except Exception:
+        return None
+    if names[:6] != ['read', 'countTable', 'args', 'joinFeatures', 'featureTags', 'sampleTags'] or 'blacklist_dic' not in names:
+        return None
+    v = option_values(o, bams, scratch)
+    v['contig'] = None
+    v['bedfile'] = None
+    args = SimpleNamespace(**v)
+    bl = None
+    if o.get('blacklist') is not None:
+        bl = {}
+        for c, s, e in o['blacklist']:
+            bl.setdefault(c, []).append((s, e))
+    table = collections.defaultdict(collections.Counter)
+    old = sys.stdout
+    sys.stdout = open(os.devnull, 'w')
+    try:
+        for path in bams:
+            with pysam.AlignmentFile(path) as f:
+                for read in f:
+                    fn(read, table, args, d['joined'], list(d['ft']), list(d['stags']), blacklist_dic=bl)
+        return {'raw': cells_of_raw(table)}
+    except KeyboardInterrupt:
+        raise
+    except BaseException as e:
+        return {'error': '%s: %s' % (type(e).__name__, e)}
+    finally:
+        sys.stdout.close()
+        sys.stdout = old
+
+
 def handler(p):
     from singlecellmultiomics.bamProcessing import bamToCountTable as T
-    import pandas as pd
     scratch = os.environ['SCMO_SCRATCH']
-    devnull = open(os.devnull, 'w')
     paths, backs = [], []
     for n, lib in enumerate(p['libs']):
         path = os.path.join(scratch, 'lib%d.bam' % n)
         backs.append(make_bam(path, lib))
         paths.append(path)
     out = []
-    orig_from_dict = pd.DataFrame.from_dict
     for n, case in enumerate(p['cases']):
         o = case['opts']
-        captured = []
+        libs = case['lib'] if isinstance(case['lib'], list) else [case['lib']]
+        bams = [paths[i] for i in libs]
         try:
-            libs = case['lib'] if isinstance(case['lib'], list) else [case['lib']]
-            bl = bed = None
-            if o.get('blacklist') is not None:
-                bl = os.path.join(scratch, 'bl%d.bed' % n)
-                with open(bl, 'w') as fh:
-                    for c, s, e in o['blacklist']:
-                        fh.write('%s\t%d\t%d\n' % (c, s, e))
-            if o.get('bed') is not None:
-                bed = os.path.join(scratch, 'rg%d.bed' % n)
-                with open(bed, 'w') as fh:
-                    for c, s, e, name in o['bed']:
-                        fh.write('%s\t%d\t%d\t%s\n' % (c, s, e, name))
-            args = SimpleNamespace(
-                alignmentfiles=[paths[i] for i in libs], head=None, o=None, bin=None, binTag='DS', sliding=None,
-                bedfile=bed, showtags=False, featureTags=o.get('featureTags'),
-                joinedFeatureTags=o.get('joinedFeatureTags'), byValue=o.get('byValue'),
-                sampleTags=o.get('sampleTags', 'SM'), proper_pairs_only=o.get('proper_pairs_only', False),
-                no_indels=o.get('no_indels', False), max_base_edits=o.get('max_base_edits'),
-                no_softclips=o.get('no_softclips', False), minMQ=o.get('minMQ', 0), filterXA=o.get('filterXA', False),
-                dedup=o.get('dedup', False), divideMultimapping=o.get('divideMultimapping', False),
-                doNotDivideFragments=o.get('doNotDivideFragments', False), contig=o.get('contig'), blacklist=bl,
-                r1only=o.get('r1only', False), r2only=o.get('r2only', False), filterMP=o.get('filterMP', False),
-                splitFeatures=o.get('splitFeatures', False), featureDelimiter=o.get('featureDelimiter', ','),
-                noNames=o.get('noNames', False), keepOverBounds=False, bulk=False)
-
-            def spy(data, *a, **k):
-                try:
-                    captured.append({s: dict(c) for s, c in data.items()})
-                except Exception:
-                    pass
-                return orig_from_dict(data, *a, **k)
-            old = sys.stdout
-            sys.stdout = devnull
-            pd.DataFrame.from_dict = spy
-            try:
-                df = T.create_count_table(args, return_df=True)
-            finally:
-                sys.stdout = old
-                pd.DataFrame.from_dict = orig_from_dict
-            res = {'cells': cells_of_df(df)}
-            res['raw'] = cells_of_raw(captured[0]) if len(captured) == 1 else None
-            try:
-                res['filter'] = filter_decisions(T, args, o, [paths[i] for i in libs]) if p.get('filter') else None
+            res = run_table(T, SimpleNamespace(**option_values(o, bams, scratch)))
+        except Exception as e:
+            res = {'error': 'Harness%s: %s' % (type(e).__name__, e)}
+        if p.get('filter'):
+            try:        # a FRESH namespace: exactly the options of this case, nothing create_count_table left behind
+                res['filter'] = filter_decisions(T, SimpleNamespace(**option_values(o, bams, scratch)), o, bams)
             except Exception:
                 res['filter'] = None        # e.g. a changed signature: the table comparison still stands
-            out.append(res)
-        except BaseException as e:
-            if isinstance(e, (KeyboardInterrupt,)):
-                raise
-            r = {'error': '%s: %s' % (type(e).__name__, e)}
+        if case.get('direct') is not None:
             try:
-                r['filter'] = filter_decisions(T, args, o, [paths[i] for i in libs]) if p.get('filter') else None
+                res['direct'] = direct_table(T, o, bams, scratch, case['direct'])
             except Exception:
-                r['filter'] = None
-            # an exception after the table was accumulated (DataFrame naming) keeps the captured table
-            if len(captured) == 1:
-                try:
-                    r['raw'] = cells_of_raw(captured[0])
-                except Exception:
-                    pass
-            out.append(r)
-    return {'libs': backs, 'cases': out}
+                res['direct'] = None
+        out.append(res)
+    # histories: several calls on ONE namespace; between calls only the attributes whose requested value changes
+    # are assigned (as a caller editing his options object would do)
+    hout = []
+    for h in p.get('histories', []):
+        libs = h['lib'] if isinstance(h['lib'], list) else [h['lib']]
+        bams = [paths[i] for i in libs]
+        steps, args, requested = [], None, None
+        for o in h['steps']:
+            try:
+                v = option_values(o, bams, scratch)
+                if args is None:
+                    args = SimpleNamespace(**v)
+                else:
+                    for k, val in v.items():
+                        if requested[k] != val:
+                            setattr(args, k, val)
+                requested = v
+                steps.append(run_table(T, args))
+            except Exception as e:
+                steps.append({'error': 'Harness%s: %s' % (type(e).__name__, e)})
+        hout.append(steps)
+    return {'libs': backs, 'cases': out, 'histories': hout}
 
 
 fw.impl_main(handler)
